@@ -358,6 +358,63 @@ func vxC10Run(c *vxC10Case, k *vstats.Case) error {
 			}
 		}
 		k.Class("policy plumbing checked")
+
+		// with ShuffleReplicas() every pick may offer the replicas in another order, but the placement the
+		// policy keeps must stay what the strategy computed (owner first, clockwise), and two iterators of
+		// the same range that are consumed in turns must each offer every replica exactly once
+		sp := TokenAwareHostPolicy(RoundRobinHostPolicy(), ShuffleReplicas()).(*tokenAwareHostPolicy)
+		sp.getKeyspaceName = func() string { return "ks" }
+		sp.getKeyspaceMetadata = func(string) (*KeyspaceMetadata, error) { return ks, nil }
+		sp.logger = nopLogger{}
+		sp.SetPartitioner(vxPartNames[c.Part])
+		sp.AddHosts(hosts)
+		for round := 0; round < 2; round++ {
+			for r := 0; r < vxRanks; r++ {
+				if lookups[r].nil || len(lookups[r].got) == 0 {
+					continue
+				}
+				exp := lookups[r].got
+				key := []byte(vxTokenString(c.Part, r))
+				q1 := &Query{routingInfo: &queryRoutingInfo{}}
+				q1.getKeyspace = func() string { return "ks" }
+				q1.RoutingKey(key)
+				itA, itB := sp.Pick(q1), sp.Pick(q1)
+				seenA, seenB := map[*HostInfo]int{}, map[*HostInfo]int{}
+				for i := 0; i < len(exp); i++ {
+					for _, x := range []struct {
+						it   NextHost
+						seen map[*HostInfo]int
+					}{{itA, seenA}, {itB, seenB}} {
+						sh := x.it()
+						if sh == nil || sh.Info() == nil {
+							return fmt.Errorf("shuffling token-aware pick for key %q ended after %d of %d replicas", key, i, len(exp))
+						}
+						x.seen[sh.Info()]++
+					}
+				}
+				for _, e := range exp {
+					if seenA[e] != 1 || seenB[e] != 1 {
+						return fmt.Errorf("shuffling token-aware picks for key %q (two iterators consumed in turns): replica %s offered %d and %d times among the first %d hosts; replicas are %v", key, e.hostId, seenA[e], seenB[e], len(exp), vxHostNames(exp))
+					}
+				}
+			}
+		}
+		meta := sp.getMetadataReadOnly()
+		for r := 0; r < vxRanks && meta != nil; r++ {
+			if lookups[r].nil {
+				continue
+			}
+			tok := tr.partitioner.ParseString(vxTokenString(c.Part, r))
+			ht := meta.replicas["ks"].replicasFor(tok)
+			var got []*HostInfo
+			if ht != nil {
+				got = ht.hosts
+			}
+			if strings.Join(vxHostNames(got), ",") != strings.Join(vxHostNames(lookups[r].got), ",") {
+				return fmt.Errorf("after shuffled picks the policy's stored placement for rank %d is %v, the strategy computed %v", r, vxHostNames(got), vxHostNames(lookups[r].got))
+			}
+		}
+		k.Class("shuffled picks checked")
 	}
 	return known
 }
